@@ -22,6 +22,7 @@ import (
 	"github.com/influxdata/influxdb/pkg/file"
 	"github.com/influxdata/influxdb/pkg/limiter"
 	"github.com/influxdata/influxdb/pkg/metrics"
+	"github.com/influxdata/influxdb/pkg/verifhook"
 	"github.com/influxdata/influxdb/query"
 	"github.com/influxdata/influxdb/tsdb"
 	"go.uber.org/zap"
@@ -781,6 +782,9 @@ func (f *FileStore) replace(oldFiles, newFiles []string, updatedFn func(r []TSMF
 			if err := os.Rename(oldName, newName); err != nil {
 				return err
 			}
+			if verifhook.Enabled {
+				verifhook.Point("fs.renamed", oldName, newName)
+			}
 		}
 
 		// Any error after this point should result in the file being bein named
@@ -882,6 +886,9 @@ func (f *FileStore) replace(oldFiles, newFiles []string, updatedFn func(r []TSMF
 					}
 
 					inuse = append(inuse, file)
+					if verifhook.Enabled {
+						verifhook.Point("fs.removed", remove)
+					}
 					continue
 				}
 
@@ -891,6 +898,9 @@ func (f *FileStore) replace(oldFiles, newFiles []string, updatedFn func(r []TSMF
 
 				if err := file.Remove(); err != nil {
 					return err
+				}
+				if verifhook.Enabled {
+					verifhook.Point("fs.removed", remove)
 				}
 				break
 			}
@@ -903,6 +913,9 @@ func (f *FileStore) replace(oldFiles, newFiles []string, updatedFn func(r []TSMF
 
 	if err := file.SyncDir(f.dir); err != nil {
 		return err
+	}
+	if verifhook.Enabled {
+		verifhook.Point("fs.syncdir", f.dir)
 	}
 
 	// Tell the purger about our in-use files we need to remove
